@@ -1697,6 +1697,11 @@ def g_c15(r, tier, env, Ls):
         line, meta = gen_rates_case(r, Ls)
         tags = ["L=%d" % meta["L"], "labels=%d" % meta["nlabels"]]
         if meta["L"] and meta["ncell"] % meta["L"]: tags.append("partial_group")
+        if r.chance(0.3):
+            # the builder was used for another mechanism before (processes are then copy-ASSIGNED): same expected result
+            c = Case("ratesx" + line[len("rates"):], meta, "rates", oracle=oracle_rates, drift_ok=rates_drift_ok, tags=tags + ["builder_reused"],
+                     nontrivial=meta["nproc"] > 1, model_line=line)
+            cs.append(c); continue
         cs.append(Case(line, meta, "rates", oracle=oracle_rates, drift_ok=rates_drift_ok, tags=tags, nontrivial=meta["nproc"] > 1))
     return cs
 
@@ -1716,12 +1721,12 @@ def g_c17(r, tier, env, Ls):
             z = r.below(7)
             s = r.pick(sorted(live))
             if z <= 1 and nxt < 7:
-                ops.append([r.pick(["cpc", "cpa"]), str(s), str(nxt)]); live.add(nxt); nxt += 1
+                ops.append([r.pick(["cpc", "cpa", "cpa0", "cpax"]), str(s), str(nxt)]); live.add(nxt); nxt += 1
             elif z == 2 and nxt < 7:
                 ops.append([r.pick(["mvc", "mva"]), str(s), str(nxt)]); live.discard(s); live.add(nxt); nxt += 1
             elif z == 3 and len(live) > 1:
                 d = r.pick(sorted(live - {s}))
-                ops.append(["cpa", str(s), str(d)])
+                ops.append([r.pick(["cpa", "cpa", "cpax"]), str(s), str(d)])
             elif z == 4:
                 ops.append(["solve", str(s), hexd(r.logu(1e-2, 1e2))])
             elif z == 5:
